@@ -148,15 +148,8 @@ def run(R, env):
             R.ob("C06.R2", "ReceiveUnstakedTokens:status:=Received", st is not None and st[0] == "agg" and st[2] == "Received", "status := %s" % fmt(st or ("none",))[:80], loc=o["loc"], fn=hk)
             R.ob("C06.R2", "ReceiveUnstakedTokens:only-lifecycle-fields", set(d) <= {("status",), ("next_batch_action_time",), ("received_native_unstaked",)} and ("received_native_unstaked",) in d, "fields written: %s (expected_native_unstaked must never change after submission)" % sorted(".".join(p) for p in d), loc=o["loc"], fn=hk)
     R.floor("C06.R2", "BATCHES writes in ReceiveUnstakedTokens", nrecv, 1)
-    def status_guard(t):
-        if t[0] == "call" and t[1] in EQ:
-            a, b = t[2]
-            for x, y in ((a, b), (b, a)):
-                if x[0] == "field" and x[2] == "status" and named(x[1]) and y[0] == "agg" and y[1].endswith("BatchStatus") and y[2] == "Submitted":
-                    return EQ[t[1]]
-        return None
     found = []
-    ok, off = guarded(h, Guard("status==Submitted", boolean=status_guard), prog, env.depth, found)
+    ok, off = guarded(h, shared.status_guard(named, "Submitted"), prog, env.depth, found)
     R.ob("C06.R2", "ReceiveUnstakedTokens:only-submitted", ok, "a batch that is not Submitted can become Received: %s" % (off,), fn=hk, found=found)
     nb2 = lambda t: t[0] == "field" and t[2] == "next_batch_action_time" and named(t[1])
     rem, n = world_edges(h, nb2, True)
